@@ -282,14 +282,14 @@ theorem reabsorb1 (p : PCfg) (f : Fmt) (hc : contOK p = true) (h10 : p.asciiSpac
       rw [close_fix p f h10 _ hctx' after' _ c' hk2]
     -- the element itself, read again
     have hself : ∀ (c2 : List PStr),
-        absorb1 p f ctx c2 (Node.tag ⟨fullName i, none, normAttrs p f (fullName i) i.attrs, p.voidTags.contains (fullName i), false⟩
+        absorb1 p f ctx c2 (Node.tag ⟨fullName i, none, normAttrs p f (fullName i) i.attrs, p.isVoid (fullName i), false⟩
           ((absorb p f (pushCtx p ctx (fullName i)) [] ks).1 ++
             txt p (pushCtx p ctx (fullName i)) (absorb p f (pushCtx p ctx (fullName i)) [] ks).2)) =
-        (txt p ctx c2 ++ [Node.tag ⟨fullName i, none, normAttrs p f (fullName i) i.attrs, p.voidTags.contains (fullName i), false⟩
+        (txt p ctx c2 ++ [Node.tag ⟨fullName i, none, normAttrs p f (fullName i) i.attrs, p.isVoid (fullName i), false⟩
           ((absorb p f (pushCtx p ctx (fullName i)) [] ks).1 ++
             txt p (pushCtx p ctx (fullName i)) (absorb p f (pushCtx p ctx (fullName i)) [] ks).2)], []) := by
       intro c2
-      have hfn : fullName ⟨fullName i, none, normAttrs p f (fullName i) i.attrs, p.voidTags.contains (fullName i), false⟩ = fullName i := by
+      have hfn : fullName ⟨fullName i, none, normAttrs p f (fullName i) i.attrs, p.isVoid (fullName i), false⟩ = fullName i := by
         simp [fullName, prefixStr]
       simp only [absorb1, hfn, hkids, ha.1]
     refine ⟨[], ?_, by simp [Rel]⟩
